@@ -144,11 +144,19 @@ class RenderContext:
 
     def assign(self, key: str, val: Any) -> None:
         """Add or replace the context variable named _key_ with the value _val_."""
+        missing = object()
+        previous = self.locals.get(key, missing)
         self.locals[key] = val
         if (
             self.env.local_namespace_limit is not None
             and self.get_size_of_locals() > self.env.local_namespace_limit
         ):
+            # Don't keep the value that breaks the limit. In lax and warn mode the
+            # error is suppressed and rendering continues with this namespace.
+            if previous is missing:
+                del self.locals[key]
+            else:
+                self.locals[key] = previous
             raise LocalNamespaceLimitError("local namespace limit reached", token=None)
 
     def get_size_of_locals(self) -> int:
